@@ -167,7 +167,7 @@ func init() {
 		Title: "Shutdown always completes: no hang, no panic, channels closed",
 		Explain: "Decides structural necessary conditions of clean shutdown: WaitGroup Add/Done pairing of the fan-out helpers (C12.pairing; the pipeline groups are covered by C01/C03/C07 rules that this property shares); a frozen table of close() sites per channel field with their once/defer attributes, so that a second closer or a closer outside its sync.Once is reported (C12.close-sites); the close/wait hand-shakes of client, broker, offset manager, heartbeat, partition consumer and subscription manager (C12.handshakes); every blocking select of the long-running loops has a case on its component's shutdown channel (C12.dying); for channels closed by their only sender, the sender table (C12.who-sends); the closure handed to a sync.Once in a Close path has no return that skips teardown its normal exit performs (C12.once-complete); every subscription of a broker worker that gives up is handed back to its dispatcher exactly once, dying ones included — the hand-over is what lets a closing partition consumer finish (C03.redispatch, shared). " +
 			"NOT covered: absence of deadlock in general, send/close races that need a happens-before argument (consumerGroup.errors, partitionConsumer.errors/trigger).",
-		Rules: []func(*Ctx){c12Pairing, c12CloseSites, c12OnceComplete, c12LockReleased, c12Refcount, c12Handshakes, c12Dying, c12WhoSends, c12SendVsCloseLock, c01Shutdown, c01BrokerShutdown, c01Markers, c03Redispatch, c03ErrLost},
+		Rules: []func(*Ctx){c12Pairing, c12CloseSites, c12OnceComplete, c12LockReleased, c12Refcount, c12Handshakes, c12Dying, c12WhoSends, c12SendVsCloseLock, c01Shutdown, c01BrokerShutdown, c01Markers, c03Redispatch, c03ErrLost, c07Order},
 	})
 }
 
@@ -178,15 +178,22 @@ type closeSite struct {
 	field    string // "Owner.field" or "local"
 	once     bool
 	deferred bool
+	onceObj  string // the sync.Once the enclosing closure is run by ("Owner.field"), when once
 }
 
 func (p *Program) closeSites() []closeSite {
 	// closures run by sync.Once.Do (directly or nested inside such a closure)
 	onceBodies := map[*ssa.Function]bool{}
+	onceOf := map[*ssa.Function]string{}
 	for _, fn := range p.Fns {
 		for _, s := range Info(fn).Find(p.CallTo("(*sync.Once).Do")) {
 			if cl := p.closureArg(s, 1); cl != nil {
 				onceBodies[cl] = true
+				if a := callArgs(s); len(a) > 0 {
+					if ch := fieldChain(a[0]); len(ch) > 0 {
+						onceOf[cl] = ch[len(ch)-1].owner + "." + ch[len(ch)-1].name
+					}
+				}
 			}
 		}
 	}
@@ -197,6 +204,14 @@ func (p *Program) closeSites() []closeSite {
 			}
 		}
 		return false
+	}
+	onceObjOf := func(f *ssa.Function) string {
+		for x := f; x != nil; x = x.Parent() {
+			if onceBodies[x] {
+				return onceOf[x]
+			}
+		}
+		return ""
 	}
 	var out []closeSite
 	for _, fn := range p.Fns {
@@ -227,7 +242,7 @@ func (p *Program) closeSites() []closeSite {
 						field = "mocks." + field
 					}
 				}
-				out = append(out, closeSite{fn, in, field, inOnce(fn), deferred})
+				out = append(out, closeSite{fn, in, field, inOnce(fn), deferred, onceObjOf(fn)})
 			}
 		}
 	}
@@ -310,6 +325,16 @@ func c12CloseSites(c *Ctx) {
 			continue
 		}
 		okN := len(ss) <= t.n
+		if !okN && t.attr == "once" {
+			// several sites, all inside closures run by one and the same sync.Once: at most one of them ever executes
+			same := ss[0].onceObj != ""
+			for _, s := range ss {
+				if !s.once || s.onceObj != ss[0].onceObj {
+					same = false
+				}
+			}
+			okN = same
+		}
 		okAttr := true
 		for _, s := range ss {
 			switch t.attr {
@@ -808,7 +833,7 @@ func c12SendVsCloseLock(c *Ctx) {
 	p := c.P
 	rule := "C12.send-vs-close-lock"
 	c.Doc(rule, "partitionOffsetManager.errors: every call of partitionOffsetManager.handleError (the only sender) is made while an offsetManager.pomsLock is held (read or write), every call of partitionOffsetManager.release (the only closer) while it is held for writing; so the close cannot happen between a sender's decision to send and its send")
-	c.Floor(rule, 6)
+	c.Floor(rule, 3)
 	need := map[string]int{"partitionOffsetManager.handleError": 1, "partitionOffsetManager.release": 2}
 	// the closer really is the only closer
 	for _, fn := range p.Fns {
@@ -852,7 +877,7 @@ func c12SendVsCloseLock(c *Ctx) {
 				name+" is called without holding offsetManager.pomsLock ("+what+" mode): a failed commit's error can be sent on pom.errors while releasePOMs (Close, or a concurrent successful commit) closes it — send on closed channel panic, and the channel is closed before its last event", nil)
 		})
 	}
-	if n < 6 {
+	if n < 3 {
 		c.Unresolved(rule, fmt.Sprintf("calls of partitionOffsetManager.handleError/release (found %d)", n))
 	}
 }
